@@ -65,7 +65,7 @@ func (x *Exec) assumeClause(st *State, env *Env, cl *Clause, bind func(string, V
 			fail("exists and forall cannot be mixed in one clause: %s", cl.text)
 		}
 		w := freshVar("wit$"+v.name, SInt)
-		x.witnessVars = append(x.witnessVars, w)
+		st.wits = append(st.wits[:len(st.wits):len(st.wits)], w)
 		e2.vars[v.name] = w
 		if bind != nil {
 			bind(v.name, w)
@@ -121,6 +121,7 @@ func (x *Exec) existsCandidates(env *Env) []*Term {
 }
 
 func (x *Exec) evalClause(st *State, env *Env, cl *Clause) *Term {
+	x.curSkolems = nil // the skolems of an earlier goal are not part of this one
 	if len(cl.vars) == 0 {
 		return x.evalBool(st, env, cl.expr)
 	}
@@ -509,7 +510,7 @@ func (x *Exec) candidates(st *State, apps []appRec, t types.Type) []Value {
 		}
 		// witnesses of assumed existential clauses: universally quantified hypotheses are needed at them
 		if vs == SInt {
-			for _, w := range x.witnessVars {
+			for _, w := range st.wits {
 				k := fmt.Sprintf("%d", w.id)
 				if !seen[k] {
 					seen[k] = true
@@ -1102,7 +1103,6 @@ func (x *Exec) verifyContract(ct *Contract) (err error) {
 		ufMemo[k] = t
 	}
 	x.schemas = nil
-	x.witnessVars = nil
 	x.paths = 0
 	x.unrolled = 0
 	x.instKeys = nil
